@@ -119,7 +119,9 @@ func (c *Context) Reset() {
 	c.Resp = &c.writer
 	c.Params = nil
 	c.handlers = c.handlers[:0]
-	c.Errors = c.Errors[:0]
+	// Notice: drop the list. Its backing array may still be used by the previous request (a slice
+	// taken from c.Errors, an OnError reporter) and must not be visible to the next one.
+	c.Errors = nil
 	// c.Accepted = nil
 }
 
